@@ -26,6 +26,15 @@ CLAIMED = {
  "C17": ("interprocedural taint from script-controlled values to panic-prone operations with dominating-guard facts (PANIC-SINK); variadic-argument index check (VARIADIC-INDEX)",
          "Structural necessary condition for the no-panic clause: no value chosen by the script (command arguments and options, redirection fds, input values, evaluated expressions) reaches an index, slice bound, make size, integer divisor, signed shift, unchecked type assertion or argument-panicking library call unless checks on every path establish that it is safe; audited exceptions are listed with reasons. Nil dereferences, resource exhaustion and the no-hang clause are not decided.",
          "trusts go/ssa, the curated library-sink table and the audit table (sa/internal/rules/c17.go); guard facts assume loads of the same field between a check and its use see the same value"),
+ "C18": ("who-may-send ownership check on pipeline value channels (SEND-OWN), ordering/pairing on the per-form function's CFG (STOP-ORDER), literal check (SENDERR-NONNIL), def-use check of the exception slice (ALL-EXC), early-exit-before-join pattern (NO-JOIN-ON-EARLY-EXIT)",
+         "Structural necessary conditions for the reader-gone/no-deadlock and all-exceptions clauses: value sends always watch sendStop; the reader-gone error is published before sendStop is closed; owned ports are closed and wg.Done runs exactly once per form; every form has its own exception slot; no command joins a band-draining goroutine after it may have stopped reading the other band (two known findings: only-values, only-bytes). Delivery order and exactly-once delivery are not decided.",
+         "trusts go/ssa; channel provenance is resolved through fields, locals and captured variables, not through arbitrary aliases"),
+ "C19": ("dominance checks on the pipeline/chunk CFGs (CANCEL-GATE), must-check-result rule on semaphore.Acquire (ACQUIRE-CHECK), select-shape rule for timer waits (INTERRUPTIBLE-BLOCK), spawn/join pairing for every go statement (JOINED)",
+         "Structural necessary conditions: no pipeline starts without testing for an interrupt, a chunk reports an interrupt before returning normally, a failed Acquire never leads to a started callback or a Release, timer waits are interruptible, every goroutine of pkg/eval and pkg/mods is joined or an audited long-lived helper. Promptness and real schedules are not decided.",
+         "trusts go/ssa; the audit table of deliberately unjoined goroutines in sa/internal/rules/c19.go"),
+ "C20": ("WaitGroup discipline on all paths (WG-DISCIPLINE), re-validation of the stop flag after the blocking Acquire (RECHECK), semaphore acquire/release pairing (SEMA-PAIR), lock-dominates-store and no-unchecked-assertion rules on error aggregation (ERR-AGG)",
+         "Structural necessary conditions for peach/run-parallel: Add before go, Done exactly once per worker, Wait before every return, the broken flag re-read after waiting for a slot, slots released exactly once or handed to a worker, shared error written under its mutex, callee errors never asserted unchecked. Output union and exactly-once per input under all schedules are not decided.",
+         "trusts go/ssa"),
  "C39": ("lockset dataflow over SSA with boolean-correlated path sensitivity (EVALER-LOCK, PTRVAR-LOCK); guarded-field set derived from the struct declaration (GUARDED-SET)",
          "Structural necessary condition, all paths of all functions: every access to the interpreter's mutex-guarded fields and every dereference of a PtrVar pointer happens with the right lock held; maps do not leave the critical section; locks are balanced. Freedom from races on other state and serialisability of results are not decided.",
          "trusts go/ssa; lock identity is by struct field, not by object (one Evaler per interpreter)"),
